@@ -7,6 +7,10 @@ between:
   N3  ``x = x op e`` → ``x op= e``  (Name / textually identical Subscript, Attribute)
   N4  comparison orientation: literal on the right (``0 < n`` → ``n > 0``),
       ``not (a == b)`` → ``a != b`` (and the other exact negations of ==, !=, is, in)
+  N5  counting loops written by hand (`i = len(X) - 1; while i >= 0: …; i -= 1`, `i = len(X); while i > 0:
+      i -= 1; …`, `k = c; for t in IT: …; k += 1`) → `for i in reversed(range(len(X)))` / `for k, t in enumerate(IT, c)`
+      (only when the counter is not assigned elsewhere in the body, no `continue` can skip the step, and the
+      counter is not read after the loop)
   INLINE  calls to small private helper functions/methods of the repository that are not
       themselves anchors of a rule are inlined (parameters bound, locals renamed, tail
       returns turned into assignments), so that "extract helper" refactorings do not hide
@@ -101,6 +105,95 @@ def norm_block(stmts):
     for s in stmts:
         norm_stmt(s)
         out.extend(split_assign(s))
+    return norm_loops(out)
+
+
+# ---- N5: counting loops written by hand → for … in reversed(range(len(X))) / enumerate(IT, c0)
+def _is_step(s, name, op):
+    """`name -= 1` / `name += 1` (after N3 also `name = name ± 1`)"""
+    return isinstance(s, ast.AugAssign) and isinstance(s.target, ast.Name) and s.target.id == name and isinstance(s.op, op) \
+        and isinstance(s.value, ast.Constant) and s.value.value == 1
+
+
+def _assigns(stmts, name):
+    for s in stmts:
+        for n in ast.walk(s):
+            if isinstance(n, ast.Name) and n.id == name and isinstance(n.ctx, (ast.Store, ast.Del)):
+                return True
+    return False
+
+
+def _loop_level_continue(stmts):
+    """a `continue` that belongs to the loop whose body is ``stmts``"""
+    for s in stmts:
+        if isinstance(s, ast.Continue):
+            return True
+        if isinstance(s, (ast.For, ast.While, ast.FunctionDef, ast.AsyncFunctionDef, ast.ClassDef)):
+            continue
+        for fld in ("body", "orelse", "finalbody"):
+            b = getattr(s, fld, None)
+            if isinstance(b, list) and b and isinstance(b[0], ast.stmt) and _loop_level_continue(b):
+                return True
+        for h in getattr(s, "handlers", []) or []:
+            if _loop_level_continue(h.body):
+                return True
+    return False
+
+
+def _loads_after(stmts, name):
+    return any(isinstance(n, ast.Name) and n.id == name and isinstance(n.ctx, ast.Load) for s in stmts for n in ast.walk(s))
+
+
+def _len_of(v):
+    """X for `len(X)`"""
+    if isinstance(v, ast.Call) and isinstance(v.func, ast.Name) and v.func.id == "len" and len(v.args) == 1 and not v.keywords:
+        return v.args[0]
+    return None
+
+
+def norm_loops(stmts):
+    out = list(stmts)
+    i = 0
+    while i + 1 < len(out):
+        a, b = out[i], out[i + 1]
+        rest = out[i + 2:]
+        new = None
+        if isinstance(a, ast.Assign) and len(a.targets) == 1 and isinstance(a.targets[0], ast.Name):
+            k = a.targets[0].id
+            if isinstance(b, ast.While) and not b.orelse and isinstance(b.test, ast.Compare) and len(b.test.ops) == 1 and isinstance(b.test.left, ast.Name) \
+                    and b.test.left.id == k and isinstance(b.test.comparators[0], (ast.Constant, ast.UnaryOp)) and not _loads_after(rest, k):
+                lim = b.test.comparators[0]
+                limv = lim.value if isinstance(lim, ast.Constant) else (-lim.operand.value if isinstance(lim.op, ast.USub) and isinstance(lim.operand, ast.Constant) else None)
+                op = b.test.ops[0]
+                ge0 = (isinstance(op, ast.GtE) and limv == 0) or (isinstance(op, ast.Gt) and limv == -1)
+                gt0 = (isinstance(op, ast.Gt) and limv == 0) or (isinstance(op, ast.GtE) and limv == 1)
+                X = None
+                # A: k = len(X) - 1; while k >= 0: BODY; k -= 1
+                if ge0 and isinstance(a.value, ast.BinOp) and isinstance(a.value.op, ast.Sub) and isinstance(a.value.right, ast.Constant) and a.value.right.value == 1 \
+                        and _len_of(a.value.left) is not None and b.body and _is_step(b.body[-1], k, ast.Sub) \
+                        and not _assigns(b.body[:-1], k) and not _loop_level_continue(b.body[:-1]):
+                    X, body = _len_of(a.value.left), b.body[:-1]
+                # B: k = len(X); while k > 0: k -= 1; BODY
+                elif gt0 and _len_of(a.value) is not None and b.body and _is_step(b.body[0], k, ast.Sub) and not _assigns(b.body[1:], k):
+                    X, body = _len_of(a.value), b.body[1:]
+                if X is not None and body:
+                    it = ast.Call(func=ast.Name(id="reversed", ctx=ast.Load()), args=[
+                        ast.Call(func=ast.Name(id="range", ctx=ast.Load()), args=[ast.Call(func=ast.Name(id="len", ctx=ast.Load()), args=[X], keywords=[])], keywords=[])], keywords=[])
+                    new = ast.For(target=ast.Name(id=k, ctx=ast.Store()), iter=it, body=body, orelse=[], lineno=b.lineno)
+            # C: k = c0; for T in IT: BODY; k += 1
+            elif isinstance(b, ast.For) and not b.orelse and isinstance(a.value, ast.Constant) and isinstance(a.value.value, int) and not isinstance(a.value.value, bool) \
+                    and b.body and _is_step(b.body[-1], k, ast.Add) and not _assigns(b.body[:-1], k) and not _loop_level_continue(b.body[:-1]) \
+                    and not _loads_after(rest, k) and k not in _names(b.iter) and k not in _names(b.target) and len(b.body) > 1:
+                args = [b.iter] + ([ast.Constant(value=a.value.value)] if a.value.value != 0 else [])
+                it = ast.Call(func=ast.Name(id="enumerate", ctx=ast.Load()), args=args, keywords=[])
+                tgt = ast.Tuple(elts=[ast.Name(id=k, ctx=ast.Store()), b.target], ctx=ast.Store())
+                new = ast.For(target=tgt, iter=it, body=b.body[:-1], orelse=[], lineno=b.lineno)
+        if new is not None:
+            ast.copy_location(new, b)
+            ast.fix_missing_locations(new)
+            out[i:i + 2] = [new]
+            continue
+        i += 1
     return out
 
 
@@ -158,6 +251,10 @@ def structure_exits(stmts):
 ANCHOR_PREFIXES = ("_locate_droplets_in_mask", "_get_phase_field", "_make_merge_data", "_merge_data", "_image_deviation", "_write_hdf_dataset",
                    "_from_hdf_dataset", "_init_data", "_get_mpl_patch", "_args", "_data_array", "_load", "__")
 MAX_HELPER_STMTS = 40
+# nested functions that exist on the reference tree are analysed in place (rules anchor on them); any *other* nested
+# function is a helper introduced by a refactoring and is inlined at its call sites like a private module-level helper
+NESTED_ANCHORS = {"match_tracks", "merge_data", "integrand", "get_position", "get_distance", "_image_deviation", "wrapper", "radius_from_volume",
+                  "volume_from_radius", "volume_from_radius_impl", "_surface_from_radius", "ol_surface_from_radius", "surface_from_radius"}
 
 
 class _Renamer(ast.NodeTransformer):
@@ -205,6 +302,13 @@ def _returns_only_in_tail(block) -> bool:
                     return False
             elif any(isinstance(x, ast.Return) for x in ast.walk(s)):
                 return False
+        elif isinstance(s, ast.Try) and last and not any(isinstance(x, ast.Return) for f_ in s.finalbody for x in ast.walk(f_)):
+            # `try: return X  except E: …; return Y` — the value is computed under the same handlers after retargeting
+            if s.orelse and any(isinstance(x, ast.Return) for b_ in s.body for x in ast.walk(b_)):
+                return False
+            blocks = [s.body] + [h.body for h in s.handlers] + ([s.orelse] if s.orelse else [])
+            if not all(_returns_only_in_tail(b_) for b_ in blocks):
+                return False
         elif isinstance(s, (ast.FunctionDef, ast.AsyncFunctionDef, ast.ClassDef)):
             continue
         elif any(isinstance(x, ast.Return) for x in ast.walk(s) if not isinstance(x, (ast.FunctionDef, ast.Lambda))):
@@ -228,8 +332,34 @@ def _retarget(block, make_store, keep_return):
             s.body = _retarget(s.body, make_store, keep_return)
             s.orelse = _retarget(s.orelse, make_store, keep_return)
             out.append(s)
+        elif isinstance(s, ast.Try):
+            s = copy.copy(s)
+            s.body = _retarget(s.body, make_store, keep_return)
+            s.handlers = [copy.copy(h) for h in s.handlers]
+            for h in s.handlers:
+                h.body = _retarget(h.body, make_store, keep_return)
+            s.orelse = _retarget(s.orelse, make_store, keep_return)
+            out.append(s)
         else:
             out.append(s)
+    return out
+
+
+def _blocks_no_nested(fdef):
+    """statement lists of a function, not descending into nested functions/classes"""
+    out, work = [], [fdef.body]
+    while work:
+        b = work.pop()
+        out.append(b)
+        for x in b:
+            if isinstance(x, (ast.FunctionDef, ast.AsyncFunctionDef, ast.ClassDef)):
+                continue
+            for fld in ("body", "orelse", "finalbody"):
+                bb = getattr(x, fld, None)
+                if isinstance(bb, list) and bb and isinstance(bb[0], ast.stmt):
+                    work.append(bb)
+            for h in getattr(x, "handlers", []) or []:
+                work.append(h.body)
     return out
 
 
@@ -249,9 +379,12 @@ class Inliner:
                     if isinstance(m, ast.FunctionDef):
                         self.methods[(s.name, m.name)] = m
         self.counter = 0
+        self.local = {}  # nested helper name -> FunctionDef (while the enclosing function is processed)
 
     def eligible(self, name, fdef) -> bool:
-        if not name.startswith("_") or any(name.startswith(p) for p in ANCHOR_PREFIXES):
+        if self.local.get(name) is fdef:
+            pass
+        elif not name.startswith("_") or any(name.startswith(p) for p in ANCHOR_PREFIXES):
             return False
         if fdef.decorator_list:
             return False
@@ -267,6 +400,8 @@ class Inliner:
 
     def resolve(self, call, cls_name):
         f = call.func
+        if isinstance(f, ast.Name) and f.id in self.local:
+            return f.id, self.local[f.id], None
         if isinstance(f, ast.Name) and f.id in self.funcs:
             return f.id, self.funcs[f.id], None
         if isinstance(f, ast.Attribute) and isinstance(f.value, ast.Name) and f.value.id in ("self", "cls") and cls_name:
@@ -371,6 +506,11 @@ class Inliner:
                 def visit_Lambda(self, n):
                     return n
 
+                def visit_ListComp(self, n):
+                    return n  # the call depends on the comprehension variable
+
+                visit_SetComp = visit_DictComp = visit_GeneratorExp = visit_ListComp
+
                 def visit_Call(self, n):
                     self.generic_visit(n)
                     r = inl.resolve(n, cls_name)
@@ -398,10 +538,44 @@ class Inliner:
                 s.value = h.visit(s.value)
             return pre, s
 
+        def comp_to_loop(s):
+            """`x = [f(v) for v in it if c]` with an inlinable f → x = []; for v in it: if c: x.append(f(v))"""
+            if not (isinstance(s, (ast.Assign, ast.AnnAssign)) and isinstance(s.value, ast.ListComp) and len(s.value.generators) == 1):
+                return None
+            tgt = s.targets[0] if isinstance(s, ast.Assign) else s.target
+            if isinstance(s, ast.Assign) and len(s.targets) != 1 or not isinstance(tgt, ast.Name):
+                return None
+            comp = s.value
+            g = comp.generators[0]
+            if g.is_async:
+                return None
+            has = False
+            for n in ast.walk(comp):
+                if isinstance(n, ast.Call):
+                    r = self.resolve(n, cls_name)
+                    if r is not None and self.eligible(r[0], r[1]):
+                        has = True
+            if not has or tgt.id in {x.id for x in ast.walk(comp) if isinstance(x, ast.Name)}:
+                return None
+            init = ast.copy_location(ast.Assign(targets=[ast.Name(id=tgt.id, ctx=ast.Store())], value=ast.List(elts=[], ctx=ast.Load()), lineno=s.lineno), s)
+            app = ast.Expr(value=ast.Call(func=ast.Attribute(value=ast.Name(id=tgt.id, ctx=ast.Load()), attr="append", ctx=ast.Load()), args=[comp.elt], keywords=[]))
+            body = [ast.copy_location(app, s)]
+            for c in reversed(g.ifs):
+                body = [ast.copy_location(ast.If(test=c, body=body, orelse=[]), s)]
+            loop = ast.copy_location(ast.For(target=g.target, iter=g.iter, body=body, orelse=[], lineno=s.lineno), s)
+            ast.fix_missing_locations(init)
+            ast.fix_missing_locations(loop)
+            return [init, loop]
+
         def do_stmt(s):
             if isinstance(s, (ast.FunctionDef, ast.AsyncFunctionDef)):
-                s.body = do_block(s.body)
+                if self.inline_function(s, cls_name):
+                    changed[0] = True
                 return [s]
+            rep_ = comp_to_loop(s)
+            if rep_ is not None:
+                changed[0] = True
+                return do_block(rep_)
             if isinstance(s, ast.ClassDef):
                 return [s]
             for fld in ("body", "orelse", "finalbody"):
@@ -438,8 +612,27 @@ class Inliner:
                     return out + do_block(rep)  # inline transitively (counter prevents clashes; recursion excluded by eligibility)
             return out + [s]
 
-        depth_guard = 0
-        fdef.body = do_block(fdef.body)
+        # helpers defined inside this function that the reference tree does not know
+        nested = {}
+        call_funcs = {id(c.func) for c in ast.walk(fdef) if isinstance(c, ast.Call)}
+        for blk in _blocks_no_nested(fdef):
+            for x in blk:
+                if isinstance(x, ast.FunctionDef) and x.name not in NESTED_ANCHORS and not x.decorator_list:
+                    uses = [n for n in ast.walk(fdef) if isinstance(n, ast.Name) and n.id == x.name and isinstance(n.ctx, ast.Load)]
+                    if uses and all(id(u) in call_funcs for u in uses):
+                        nested[x.name] = x
+        saved = self.local
+        self.local = {**saved, **nested}
+        try:
+            fdef.body = do_block(fdef.body)
+        finally:
+            self.local = saved
+        if nested:
+            still = {n.id for n in ast.walk(fdef) if isinstance(n, ast.Name) and isinstance(n.ctx, ast.Load)}
+            gone = {nm for nm in nested if nm not in still}
+            if gone:
+                for blk in _blocks_no_nested(fdef):
+                    blk[:] = [x for x in blk if not (isinstance(x, ast.FunctionDef) and x.name in gone)] or [ast.Pass()]
         return changed[0]
 
 
